@@ -125,6 +125,16 @@ def run_and_check(p: dict[str, Any], wd: Path) -> dict[str, Any]:
         pv = list(scn["run"]["state"]["particle_variables"])
         run2["warm_start"] = dict(filename=str(files[0].path), variables=pv + list(scn["run"]["state"]["instance_variables"]))
         run2["output"] = dict(scn["run"]["output"], filename="warm.nc", numrec=0)
+        if p.get("warm_new_pvar"):
+            # the continuation introduces a particle variable that is not in the restart file and is filled from its default (also for the
+            # particles released - and dead - before the restart)
+            import copy  # noqa: PLC0415
+
+            run2["state"] = copy.deepcopy(scn["run"]["state"])
+            run2["state"]["particle_variables"]["mark"] = "float"
+            run2["state"]["default_values"]["mark"] = 1.5
+            run2["warm_start"]["variables"] = run2["warm_start"]["variables"] + ["mark"]
+            run2["output"]["particle"] = dict(run2["output"].get("particle") or {}, mark="f8")
         with Hooks() as hk:
             outcheck.snapshot_hook(hk, snaps2)
             res2, conf2, _w = run_scenario(dict(world=None, run=run2), wd, conf_name="warm.yaml", world=world)
